@@ -16,14 +16,16 @@ NoDup(rows) == Cardinality(Range(rows)) = Len(rows)
 Fails(e) ==
   IF e.e # "traindata" THEN {"MACHINERY.unknown_event"}
   ELSE IF e.raised THEN {"DATA.creator_raised"}
-  ELSE LET x == Expected(e.bank, e.ccut, e.wcut, e.acut) IN
+  ELSE LET x == Expected(e.bank, e.ccut, e.wcut, e.acut, e.mode) IN
             If(NoDup(e.target) /\ Range(e.target) = Rows1(x.target), "target_is_not_the_frequent_leaf_categories_with_counts")
        \cup If(NoDup(e.words) /\ Range(e.words) = Rows1(x.words), "words_is_not_the_frequent_lowercased_words_and_reserved_entries")
        \cup If(NoDup(e.seen) /\ Range(e.seen) = Rows2(x.seen), "seen_rules_is_not_the_binary_pairs_over_target_categories")
        \cup If(NoDup(e.unary) /\ Range(e.unary) = Rows2(x.unary), "unary_rules_is_not_every_unary_pair_parent_first")
        \cup If(NoDup(e.prefixes) /\ Range(e.prefixes) = Rows1(x.prefixes), "prefixes_is_not_the_frequent_first_1_to_4_characters_and_reserved_entries")
        \cup If(NoDup(e.suffixes) /\ Range(e.suffixes) = Rows1(x.suffixes), "suffixes_is_not_the_frequent_last_1_to_4_characters_and_reserved_entries")
-       \cup If(e.nsamples = Len(KeptOf(e.bank)), "not_one_sample_per_tree_that_is_not_the_failure_placeholder")
+       \cup If(e.nsamples = Len(KeptIn(e.bank, e.mode)), "not_one_sample_per_kept_tree")
+       \cup If(e.sents = x.sents, "sentence_file_is_not_the_words_of_the_kept_trees_case_kept")
+       \cup If(e.layout /\ e.conll = x.conll, "conll_file_is_not_one_row_per_word_with_head_first_dependencies")
 TInit == /\ l = 1 /\ bank = <<>> /\ InitRest
 TNext == /\ l <= Len(Trace) /\ l' = l + 1
          /\ \A c \in Fails(Trace[l]) : Say(Trace[l].id, c)
